@@ -340,8 +340,7 @@ def check_iso(res: Result, src, main, inputs, features, origin):
                       'nested-store', 'row-replaced-by-alias', 'tuple-holding-list-destructured', 'helper-mutates-list'):
                 if f in features:
                     res.cls('a:f:' + f)
-            if res.evaluations % 211 == 0:
-                res.sample(case, nt=bool(wrote))
+            res.maybe_sample(case, nt=bool(wrote))
             # 1. the arguments are untouched (also when the call raised)
             if after != before:
                 res.fail('args/modified' + ('/on-raise' if got[0] == 'raise' else ''), case,
@@ -1187,8 +1186,8 @@ def check_sched(res: Result, case, free=False):
                 res.cls('c:no-switch')
         ntasks = sum(len(tl) for tl in tasks)
         res.count('c:tasks', ntasks)
-        if res.evaluations % 37 == 0:
-            res.sample({'kind': 'sched', 'threads': case['threads'], 'schedule': case['schedule'][:8], 'stats': stats,
+        if True:
+            res.maybe_sample({'kind': 'sched', 'threads': case['threads'], 'schedule': case['schedule'][:8], 'stats': stats,
                         'origins': [P['origin'] for P in case['programs']]}, nt=bool(stats and stats['in_rounded'] >= 3))
         for ti, tl in enumerate(seq):
             for ki, exp in enumerate(tl):
